@@ -1,7 +1,7 @@
 (* C08 — JS bindings read and write structs with the real wasm32 repr(C) layout. *)
 From Coq Require Import List NArith Bool.
 Import ListNotations.
-From DV Require Import Layout.Model Layout.Proofs.
+From DV Require Import Layout.Model Layout.Proofs Layout.Memory Layout.Flat.
 Local Open Scope N_scope.
 
 (* offsets, size and alignment computed by the JS backend are the repr(C) ones, for every (arbitrarily nested)
@@ -25,3 +25,24 @@ Print Assumptions C08_padding_typed_exact.
 Theorem C08_size_multiple_of_align : forall t, wf t = true -> good t.
 Proof. exact wf_good. Qed.
 Print Assumptions C08_size_multiple_of_align.
+
+(* the values JS reads back from the bytes it (or Rust) wrote equal the stored ones: every well-formed type, any nesting,
+   any field order, any memory contents around it *)
+Theorem C08_read_after_write : forall t v m base,
+  wf t = true -> typed t v -> (N.to_nat base + N.to_nat (tsize t) <= length m)%nat ->
+  read_val t (write_val t v m base) base = v.
+Proof. exact read_after_write. Qed.
+Print Assumptions C08_read_after_write.
+
+(* a write stays inside [base, base + size) *)
+Theorem C08_write_in_bounds : forall t v m base i,
+  wf t = true -> typed t v -> (N.to_nat base + N.to_nat (tsize t) <= length m)%nat ->
+  outside base (tsize t) i -> nth_error (write_val t v m base) i = nth_error m i.
+Proof. exact write_in_bounds. Qed.
+Print Assumptions C08_write_in_bounds.
+
+(* the flattened (legacy "padded direct") argument list built by the generated JS is the one the documented wasm C ABI
+   rule prescribes: for every struct without zero-sized members and without the one unresolved corner (okf) *)
+Theorem C08_flat_js_is_documented : forall t, wf t = true -> okf t = true -> flat_js_top t = flat_doc_top t.
+Proof. exact flat_js_is_documented. Qed.
+Print Assumptions C08_flat_js_is_documented.
